@@ -75,7 +75,7 @@ package gorm
 
 //@ func (*DB).Session
 //@   tags C06
-//@   modifies *db.cacheStore
+//@   modifies *db.cacheStore [C06,C18]
 //@   ensures fresh-handle: fresh(result) && fresh(result.Config) && (!config.Initialized ==> result.clone >= 1)
 //@   ensures context-kept: config.Context == nil ==> result.Statement.Context == db.Statement.Context [C18]
 //@   ensures context-set: config.Context != nil ==> result.Statement.Context == config.Context [C18]
@@ -144,3 +144,70 @@ package gorm
 //@   requires db.clone > 0
 //@   modifies nothing
 //@   ensures fresh-result: fresh(result)
+
+//@ # ---------- package-level error values (assumed never reassigned, non-nil) ----------
+//@ constant ErrRecordNotFound ErrInvalidTransaction ErrMissingWhereClause ErrInvalidDB ErrInvalidValue ErrUnsupportedDriver ErrInvalidData ErrDryRunModeUnsupported ErrEmptySlice
+//@ global ErrMissingWhereClause != nil && ErrInvalidTransaction != nil && ErrRecordNotFound != nil && ErrInvalidDB != nil && ErrInvalidValue != nil && ErrUnsupportedDriver != nil
+
+//@ func (*DB).Get (*DB).InstanceGet
+//@   trusted reads the settings map
+//@   pure
+
+//@ # ---------- C18: the caller's context reaches every driver call made outside callbacks ----------
+//@ site begin-tx-context
+//@   match invoke TxBeginner.BeginTx | invoke ConnPoolBeginner.BeginTx
+//@   in gorm.(*DB).Begin
+//@   min-sites 1
+//@   assert caller-context: arg0 == db.Statement.Context [C18]
+//@ site connection-context
+//@   match call database/sql.(*DB).Conn
+//@   in gorm.(*DB).Connection
+//@   min-sites 1
+//@   assert caller-context: arg1 == db.Statement.Context [C18]
+//@ site prepared-stmt-context
+//@   match invoke ConnPool.PrepareContext | invoke Tx.StmtContext | invoke TxBeginner.BeginTx | invoke ConnPoolBeginner.BeginTx
+//@   in gorm.(*PreparedStmtDB).* gorm.(*PreparedStmtTX).*
+//@   min-sites 5
+//@   assert context-passed-on: arg0 == ctx [C18]
+//@ site prepared-stmt-exec-context
+//@   match call database/sql.(*Stmt).ExecContext | call database/sql.(*Stmt).QueryContext | call database/sql.(*Stmt).QueryRowContext | call gorm.(*PreparedStmtDB).prepare
+//@   in gorm.(*PreparedStmtDB).* gorm.(*PreparedStmtTX).*
+//@   min-sites 6
+//@   assert context-passed-on: arg1 == ctx [C18]
+
+//@ # ---------- C04/C05: Commit and Rollback delegate once and record the driver's error ----------
+//@ ghost drvCommits drvRollbacks drvCommitErr drvRollbackErr
+//@ event invoke TxCommitter.Commit
+//@   do drvCommits = drvCommits + 1
+//@   do drvCommitErr = tagof(result)
+//@ event invoke TxCommitter.Rollback
+//@   do drvRollbacks = drvRollbacks + 1
+//@   do drvRollbackErr = tagof(result)
+
+//@ iface TxCommitter.Commit(recv)
+//@   abstract driver transaction (database/sql.Tx or a plug-in); its effects are outside gorm's memory
+//@   pure
+//@ iface TxCommitter.Rollback(recv)
+//@   abstract driver transaction (database/sql.Tx or a plug-in); its effects are outside gorm's memory
+//@   pure
+
+//@ func (*DB).DB
+//@   trusted looks up the *sql.DB behind the connection pool
+//@   pure
+
+//@ func (*DB).Commit
+//@   tags C04 C05
+//@   modifies db.Error, ghost drvCommits, ghost drvCommitErr
+//@   ensures at-most-once: drvCommits <= old(drvCommits) + 1 && drvRollbacks == old(drvRollbacks)
+//@   ensures error-recorded: drvCommits == old(drvCommits) + 1 && drvCommitErr != 0 ==> db.Error != nil
+//@   ensures not-a-transaction: drvCommits == old(drvCommits) ==> db.Error != nil
+//@   ensures error-kept: old(db.Error) != nil ==> db.Error != nil
+//@   ensures same-handle: result == db
+
+//@ func (*DB).Rollback
+//@   tags C04 C05
+//@   modifies db.Error, ghost drvRollbacks, ghost drvRollbackErr
+//@   ensures at-most-once: drvRollbacks <= old(drvRollbacks) + 1 && drvCommits == old(drvCommits)
+//@   ensures error-recorded: drvRollbacks == old(drvRollbacks) + 1 && drvRollbackErr != 0 ==> db.Error != nil
+//@   ensures error-kept: old(db.Error) != nil ==> db.Error != nil
+//@   ensures same-handle: result == db
